@@ -60,6 +60,27 @@ type Types interface {
 	MapOfSlices(m map[string][]int) map[ID]*Point
 	Struct3(a, b, c Point) (x, y Point)
 	IfaceAndNil(r io.Reader, e error) (io.Reader, error, io.Reader)
+	NamedResults(a int, b string) (n int, s string, err error)
+	PtrToNamedPtr(p *PP) *PP
+	AnonStruct(v struct {
+		A int
+		B []string
+	}) struct{ X, Y float64 }
+	TenResults(k int) (int, int, int, int, int, int, int, int, int, int, error)
+}
+
+// Prefixes: one method name is a prefix of another.
+type Prefixes interface {
+	G(k string) int
+	Get(k string) string
+	GetAll(k string) []string
+	GetAllOf(k string, n int) ([]string, error)
+}
+
+// Deep inherits methods through two levels of embedding.
+type Deep interface {
+	Embeds
+	Top(x string) (string, error)
 }
 
 type Basic interface {
@@ -140,7 +161,7 @@ type mIface struct {
 	TypeArgs string // "" or "[string, int]"
 }
 
-var mIfaces = []mIface{{"Types", ""}, {"Basic", ""}, {"Nillables", ""}, {"Shadow", ""}, {"ShadowR", ""}, {"Twins", ""}, {"Embeds", ""}, {"Gen", "[string, int]"}, {"VarOne", ""}, {"VarTwo", ""}, {"VarVoid", ""}}
+var mIfaces = []mIface{{"Types", ""}, {"Prefixes", ""}, {"Deep", ""}, {"Basic", ""}, {"Nillables", ""}, {"Shadow", ""}, {"ShadowR", ""}, {"Twins", ""}, {"Embeds", ""}, {"Gen", "[string, int]"}, {"VarOne", ""}, {"VarTwo", ""}, {"VarVoid", ""}}
 
 type mVariant struct {
 	Name  string
